@@ -207,6 +207,19 @@ def specs(draw):
         names = gen_t2.glyph_names(len(c["flat"]))
         spec["use_subrs"] = c["lsubrs"]["n"] + c["gsubrs"]["n"] < 1500 and draw(st.booleans())
     ng = len(names)
+    weird = kind != "cid" and draw(_i(0, 3)) == 0
+    if weird:
+        # glyph names with characters that XML, file systems and case-insensitive comparison treat specially (they are
+        # legal in post format 2 and in a CFF charset); names that differ only in such characters or only in case
+        pool = ['quote"dbl', "amp&er", "lt<gt>", "apos'x", "f*i", "f_i", "T_x", "T*x", "T?x", "back\\slash", "semi;colon", "hash#1", "A", "a", "percent%41", "f|i", "caf\u00e9"[:3] + "e", "x.y.z", "_", "CON", "com1"]
+        picked = draw(st.permutations(pool))[: ng - 1]
+        ren = dict(zip(names[1:], picked))
+        names = [names[0]] + [ren[n] for n in names[1:]]
+        if kind in ("glyf", "var"):
+            vf = spec["vf"]
+            vf = dict(vf, glyphs=[dict(g, name=ren[g["name"]], **({"components": [[ren[c[0]]] + list(c[1:]) for c in g["components"]]} if "components" in g else {})) for g in vf["glyphs"]], variations={ren[k]: v for k, v in vf["variations"].items()})
+            spec["vf"] = vf
+        spec["weird_names"] = True
     spec["names"] = names
     opt = lambda p=3: draw(_i(0, p)) == 0
     ex = {}
@@ -218,8 +231,8 @@ def specs(draw):
     if opt() and ng > 2:
         ex["uvs"] = [[draw(st.sampled_from([0xFE00, 0xFE0F, 0xE0100])), 0x41, None], [draw(st.sampled_from([0xFE01, 0xE0101])), 0x41 + min(1, ng - 2), draw(_i(1, ng - 1))]]
     if kind in ("glyf", "var"):
-        ex["post"] = draw(st.sampled_from([2, 2, 3]))
-    lay = draw(_layout(names)) if opt(1) else None
+        ex["post"] = 2 if weird else draw(st.sampled_from([2, 2, 3]))
+    lay = draw(_layout(names)) if (opt(1) and not weird) else None  # feature text cannot spell the weird names
     if lay:
         ex["layout"] = lay
     if opt():
@@ -630,7 +643,9 @@ def _base_bytes(spec):
     widths = {}
     for n, flat in zip(names, c["flat"]):
         r = ref_t2.run(flat, None, None, "cff", c["dwx"], c["nwx"])
-        widths[n] = max(0, min(65535, int(round(r.width))))
+        # hmtx advances stay below 2**14: HarfBuzz scales advances as int16, so anything above 32767 (also after a
+        # x2 rescaling of the em) wraps around in the oracle
+        widths[n] = max(0, min(16000, int(round(r.width))))
     kw = {}
     if spec.get("use_subrs"):
         kw = dict(lsubrs=gen_t2.expand_subrs(c["lsubrs"]), gsubrs=gen_t2.expand_subrs(c["gsubrs"]))
